@@ -80,7 +80,8 @@ def _decode_tlc_string_tuple(line, tag):
 
 
 def run_tlc(ctx, module, cfg, *, workers=8, simulate=None, depth=None, env=None, timeout=1800,
-            continue_=False, coverage=False, heap="12g", want_replay=True, extra=None, deque=False, max_replay=None):
+            continue_=False, coverage=False, heap="12g", want_replay=True, extra=None, deque=False, max_replay=None,
+            strata=None):
     """Runs TLC on spec/<module>.tla with spec/<cfg>; returns TlcResult. Scratch in ctx.work."""
     wd = os.path.join(ctx.work, f"tlc-{module}-{len(ctx.tlc_runs)}")
     os.makedirs(wd, exist_ok=True)
@@ -120,16 +121,34 @@ def run_tlc(ctx, module, cfg, *, workers=8, simulate=None, depth=None, env=None,
     sim_states = 0
     stride = 1
     r.replay_total = 0
-    if max_replay:
+    strides = {}
+    rx = re.compile(strata[0]) if strata else None
+
+    def stratum(line):
+        m = rx.search(line)
+        return m.group(1) if m else ""
+    if max_replay or strata:
+        counts = {}
         with open(out_path, errors="replace") as f:
-            r.replay_total = sum(1 for line in f if line.startswith('<<"REPLAY", '))
-        stride = max(1, -(-r.replay_total // max_replay))
+            for line in f:
+                if line.startswith('<<"REPLAY", '):
+                    r.replay_total += 1
+                    if strata:
+                        k = stratum(line)
+                        counts[k] = counts.get(k, 0) + 1
+        if strata:
+            strides = {k: max(1, -(-n // strata[1])) for k, n in counts.items()}
+            r.strata_counts = counts
+        else:
+            stride = max(1, -(-r.replay_total // max_replay))
     import hashlib
     with open(out_path, errors="replace") as f:
         for line in f:
             if line.startswith('<<"REPLAY", '):
-                if not max_replay:
+                if not (max_replay or strata):
                     r.replay_total += 1
+                if strata:
+                    stride = strides.get(stratum(line), 1)
                 if stride > 1 and int(hashlib.md5(line.encode()).hexdigest()[:8], 16) % stride != 0:
                     continue
                 if want_replay:
